@@ -17,6 +17,7 @@ ALPHABETS = {
     "splice2": (["a", NL, "\\", "?", "/"], 6, 7),
     "splicetab": (["\\", NL, TAB, '"', "a", "/"], 6, 7),
     "esc":     (['"', "\\", "?", "/", "a", "'"], 5, 6),
+    "altcomment": (["/", "*", "<", ":", "a"], 7, 8),
     "alt":     (["?", "<", ">", ":", "%", "(", ")", "=", "/", "'", "!", "-", "a"], 4, 5),
     "ops":     (list("+-*/%<>=!&^~.?:;,#|"), 3, 4),
     "quote":   (["a", "\\", '"', "'", NL, "x", "0", "7", "n", "q", "L", "u", "8"], 4, 5),
